@@ -25,6 +25,13 @@ macro_rules! ic {
     };
 }
 
+/// how many numbers the Debug output of `x` contains (elements print as `PK(1)`, `TV(7)`, ...)
+pub fn debug_numbers<D: std::fmt::Debug>(x: &D) -> usize {
+    let _s = Suspend::new();
+    let txt = format!("{:?}", x);
+    txt.split(|c: char| !c.is_ascii_digit()).filter(|t| !t.is_empty()).count()
+}
+
 /// drives any exact-size iterator, checking len()/size_hint() at every step
 fn drive<I, T>(
     mut it: I,
@@ -37,16 +44,23 @@ fn drive<I, T>(
     cl: &mut Vec<Item>,
     errs: &mut Vec<String>,
     what: &str,
+    per: usize,
 ) where
-    I: Iterator<Item = T> + ExactSizeIterator,
+    I: Iterator<Item = T> + ExactSizeIterator + std::fmt::Debug,
 {
     let mut rem = n;
     let mut i = 0usize;
     let mut cloned: Option<I> = None;
+    let dbg_at = clone_idx.unwrap_or(n / 2);
     loop {
         let l = it.len();
         let sh = it.size_hint();
         ic!(*errs, l == rem && sh == (rem, Some(rem)), "{}: after {} items len() = {}, size_hint() = {:?}, but {} remain", what, i, l, sh, rem);
+        if (i == 0 || i == dbg_at) && rem <= 20_000 {
+            // Debug of an iterator lists what is still to come, without consuming anything
+            let c = debug_numbers(&it);
+            ic!(*errs, c == rem * per, "{}: after {} items its Debug output lists {} numbers, {} expected ({} items remain)", what, i, c, rem * per, rem);
+        }
         if Some(i) == clone_idx {
             cloned = cloner(&it);
         }
@@ -103,10 +117,10 @@ impl<F: Fam> Ctx<F> {
         let extra = extra % 4;
         let ((out, cl, zipped, errs), obs) = self.observe(s, true, &[C08], move |m| {
             match kind {
-                IterKind::Iter => drive(m.iter(), n, clone_idx, extra, |i| Some(i.clone()), |(k, v): (&F::K, &F::V)| (k.k(), k.id(), v.v(), v.id()), &mut out, &mut cl, &mut errs, "iter()"),
-                IterKind::RefIntoIter => drive((&*m).into_iter(), n, clone_idx, extra, |i| Some(i.clone()), |(k, v): (&F::K, &F::V)| (k.k(), k.id(), v.v(), v.id()), &mut out, &mut cl, &mut errs, "(&map).into_iter()"),
+                IterKind::Iter => drive(m.iter(), n, clone_idx, extra, |i| Some(i.clone()), |(k, v): (&F::K, &F::V)| (k.k(), k.id(), v.v(), v.id()), &mut out, &mut cl, &mut errs, "iter()", 2),
+                IterKind::RefIntoIter => drive((&*m).into_iter(), n, clone_idx, extra, |i| Some(i.clone()), |(k, v): (&F::K, &F::V)| (k.k(), k.id(), v.v(), v.id()), &mut out, &mut cl, &mut errs, "(&map).into_iter()", 2),
                 IterKind::Keys => {
-                    drive(m.keys(), n, clone_idx, extra, |i| Some(i.clone()), |k: &F::K| (k.k(), k.id(), 0, 0), &mut out, &mut cl, &mut errs, "keys()");
+                    drive(m.keys(), n, clone_idx, extra, |i| Some(i.clone()), |k: &F::K| (k.k(), k.id(), 0, 0), &mut out, &mut cl, &mut errs, "keys()", 1);
                     for (k, v) in m.keys().zip(m.values()) {
                         if zipped.len() < zipped.capacity() {
                             zipped.push((k.k(), k.id(), v.v(), v.id()));
@@ -114,7 +128,7 @@ impl<F: Fam> Ctx<F> {
                     }
                 }
                 IterKind::Values => {
-                    drive(m.values(), n, clone_idx, extra, |i| Some(i.clone()), |v: &F::V| (0, 0, v.v(), v.id()), &mut out, &mut cl, &mut errs, "values()");
+                    drive(m.values(), n, clone_idx, extra, |i| Some(i.clone()), |v: &F::V| (0, 0, v.v(), v.id()), &mut out, &mut cl, &mut errs, "values()", 1);
                     for (k, v) in m.keys().zip(m.values()) {
                         if zipped.len() < zipped.capacity() {
                             zipped.push((k.k(), k.id(), v.v(), v.id()));
@@ -138,6 +152,7 @@ impl<F: Fam> Ctx<F> {
                     &mut cl,
                     &mut errs,
                     "iter_mut()",
+                    2,
                 ),
                 IterKind::MutIntoIter => drive(
                     (&mut *m).into_iter(),
@@ -156,6 +171,7 @@ impl<F: Fam> Ctx<F> {
                     &mut cl,
                     &mut errs,
                     "(&mut map).into_iter()",
+                    2,
                 ),
                 IterKind::ValuesMut => drive(
                     m.values_mut(),
@@ -174,6 +190,7 @@ impl<F: Fam> Ctx<F> {
                     &mut cl,
                     &mut errs,
                     "values_mut()",
+                    2,
                 ),
             }
             (out, cl, zipped, errs)
@@ -252,6 +269,10 @@ impl<F: Fam> Ctx<F> {
                 let l = d.len();
                 let sh = d.size_hint();
                 ic!(errs, l == rem && sh == (rem, Some(rem)), "drain(): after {} items len() = {}, size_hint() = {:?}, but {} remain", i, l, sh, rem);
+                if (i == 0 || i == take_n / 2) && rem <= 20_000 {
+                    let c = debug_numbers(&d);
+                    ic!(errs, c == rem * 2, "drain(): after {} items its Debug output lists {} numbers, {} items remain", i, c, rem);
+                }
                 match d.next() {
                     Some((k, v)) => {
                         k.check("drain");
@@ -346,6 +367,10 @@ impl<F: Fam> Ctx<F> {
                     let l = it.len();
                     let sh = it.size_hint();
                     ic!(errs, l == rem && sh == (rem, Some(rem)), "into_iter(): after {} items len() = {}, size_hint() = {:?}, but {} remain", i, l, sh, rem);
+                    if (i == 0 || i == take_n / 2) && rem <= 20_000 {
+                        let c = debug_numbers(&it);
+                        ic!(errs, c == rem * 2, "into_iter(): after {} items its Debug output lists {} numbers, {} items remain", i, c, rem);
+                    }
                     match it.next() {
                         Some((k, v)) => {
                             k.check("into_iter");
